@@ -84,11 +84,21 @@ def run(ck):
     ref_trace = [ref.cycle(c) for c in cycles]
     ff_ids = d.ff_ids()
     runs = []
+    crashed = False
     for flow in ['default', 'simple', 'heutopo', 'mamba', 'unroll']:
-      rs = rtlgen.RealSim(cls, d, flow)
-      if flow == 'default': flip_lines_add(ck, rs.top, src, flip_tops)
-      tr, _ = rtlgen.run_real(rs, cycles, rerun=False)
+      try:
+        rs = rtlgen.RealSim(cls, d, flow)
+        if flow == 'default': flip_lines_add(ck, rs.top, src, flip_tops)
+        tr, _ = rtlgen.run_real(rs, cycles, rerun=False)
+      except leanio.MachineryError: raise
+      except Exception as e:
+        # the generated designs are legal (acyclic, single writer): the simulator has to build and run them
+        ck.violation('simulation-raised', {'flow': flow, 'exc': type(e).__name__},
+                     {'source': src, 'flow': flow, 'inputs': cycles, 'signals': [s_.path for s_ in d.sigs]},
+                     {'error': f'{type(e).__name__}: {e}'[:400], 'oracle': 'a legal design simulates: every register holds F(pre-edge state) after each tick'})
+        crashed = True; break
       runs.append((flow, [e[1] for e in rs.schedule_entries()], rs.ff_entries(), tr))
+    if crashed: continue
     comb_order = runs[1][1]
     perms = list(itertools.permutations(ff_ids)) if len(ff_ids) <= 4 else [tuple(rng.sample(ff_ids, len(ff_ids))) for _ in range(24)]
     if len(ff_ids) > 6: perms = perms[:3]
